@@ -20,8 +20,9 @@ cd /verif
 echo "seed $NAME: existing suite with change=$suite ($npass unit tests), demo with change=$with, demo without change=$without"
 git -C /repo worktree remove --force $W
 [ "$suite" = pass ] && [ "$with" = FAIL ] && [ "$without" = pass ] || { echo "seed $NAME REJECTED (does not meet the three conditions)"; exit 1; }
-# run the checks against /repo with the change applied
+# run the checks against /repo with the change applied (evidence files describe the UNCHANGED tree: keep them)
 unset CARGO_TARGET_DIR
+rm -rf /verif/mc/target/evidence.keep; cp -r /verif/evidence /verif/mc/target/evidence.keep
 if [ -n "$(git -C /repo status --porcelain --untracked-files=no)" ]; then echo "refusing: /repo dirty"; exit 2; fi
 git -C /repo apply $SRC/patch.diff
 res=""; det=""
@@ -30,6 +31,7 @@ for id in $CHECKS; do
   if [ $rc -eq 1 ] && echo "$out" | grep -q "^VIOLATION property=$id "; then res="$res $id=DETECTED"; det="$det \"$id\","; else res="$res $id=MISSED(rc=$rc)"; fi
 done
 git -C /repo checkout -- .
+rm -rf /verif/evidence; cp -r /verif/mc/target/evidence.keep /verif/evidence
 echo "seed $NAME: $res"
 mkdir -p seeded/$NAME && cp $SRC/patch.diff seeded/$NAME/patch.diff && cp $DEMO seeded/$NAME/ && cp $SRC/notes.md seeded/$NAME/notes.md 2>/dev/null
 python3 - "$NAME" "$PROP" "$res" "$suite" "$with" "$without" <<'PY'
